@@ -138,13 +138,13 @@ template <class H> static void read_into(H &h, const std::string &bytes, int pat
   mp::ReadNLString(mp::NLStringRef(b.p, bytes.size()), h, FNAME, flags);
 }
 
-static Res run_one(const std::string &bytes, int handler, int path, int flags, bool light) {
+static Res run_one(const std::string &bytes, int handler, int path, int flags, bool light, bool want_events = false) {
   Res r;
   if (handler == H_REC) {
     pnl::Recorder h; h.record_model = false; if (light) h.record_log = false;
     guarded(r, [&] { read_into(h, bytes, path, flags); });
     r.log.swap(h.log); r.perr = h.errors; r.maxdepth = h.max_depth; r.ended = h.ended;
-    if (!light) r.events = h.event_names();
+    if (want_events) r.events = h.event_names();
     if (r.kind == 0 && !h.ended) r.perr.push_back("order:read returned without EndInput");
   } else if (handler == H_NULL) {
     mp::NullNLHandler<int> h;
@@ -197,7 +197,7 @@ static bool cfg_enabled(int mode, int vi, int flags, int handler, int path) {
     case M_FULL: return true;
     case M_NAT: return vi == 0;
     case M_LADDER: return vi == 0;
-    case M_LEX: if (vi) return false; if (handler == H_REC) return true; return path == P_MEM && flags == 0;
+    case M_LEX: if (vi) return false; if (path == P_MEM) return handler == H_REC || flags == 0; return handler == H_REC && flags == 0;
     case M_PAIR: if (vi) return false; if (path == P_MEM) return true; return handler == H_REC && flags == 0;
   }
   return false;
@@ -253,7 +253,7 @@ static void execute(long long idx, const InputData &d, int start_cfg, bool singl
       }
       wr("P\t" + std::to_string(idx) + "\t" + std::to_string(c));
       Res &r = R[c];
-      r = run_one(variants[vi], handler, path, flags, light);
+      r = run_one(variants[vi], handler, path, flags, light, d.is_base && c == 0);
       ++nrun; ++st.reads;
       if (r.kind == 0) ++st.complete; else if (r.kind == 3) ++st.refused; else ++st.errors;
       if (r.kind != 0) all_complete = false;
@@ -312,7 +312,9 @@ static void execute(long long idx, const InputData &d, int start_cfg, bool singl
   } else if (g_samples_sent < 3 && !d.is_base && d.bytes.size() < 400 && (idx % 977) == 0) {
     ++g_samples_sent; wr("M\t{\"input\":" + jstr(d.desc) + ",\"hex\":" + jstr(hexs(d.bytes)) + "}");
   }
-  wr("D\t" + std::to_string(idx) + "\t" + std::to_string(nrun));
+  wr("D\t" + std::to_string(idx) + "\t" + std::to_string(st.reads) + "\t" + std::to_string(st.complete) + "\t" + std::to_string(st.errors) +
+     "\t" + std::to_string(st.refused) + "\t" + std::to_string(st.nested) + "\t" + std::to_string(g_alloc_refusals));
+  st = ChildStats(); g_alloc_refusals = 0; (void)nrun;
 }
 
 // ------------------------------------------------------------------------------------------ enumeration
@@ -538,8 +540,6 @@ static void child_main(int out_fd, long long start_idx, int start_cfg, bool sing
     enumerate_all(en);
     ended = true;
   } catch (const Stop &) {}
-  wr("S\t" + std::to_string(st.reads) + "\t" + std::to_string(st.complete) + "\t" + std::to_string(st.errors) + "\t" +
-     std::to_string(st.refused) + "\t" + std::to_string(st.nested) + "\t" + std::to_string(done) + "\t" + std::to_string(g_alloc_refusals));
   if (ended) wr("E\t" + std::to_string(en.idx) + "\t" + std::to_string(en.npruned));
   _exit(0);
 }
@@ -567,6 +567,8 @@ static std::string top_frame(const std::string &rep, std::string *loc) {
   while ((p = rep.find("\n    #", p)) != std::string::npos) {
     size_t e = rep.find('\n', p + 1); std::string ln = rep.substr(p + 1, e - p - 1); p = e == std::string::npos ? rep.size() : e;
     size_t in = ln.find(" in "); if (in == std::string::npos) continue;
+    if (ln.find("/checks/C02/") != std::string::npos || ln.find("/verif/ref/") != std::string::npos ||
+        ln.find("/verif/engine/") != std::string::npos) return "HARNESS " + ln.substr(in + 4);
     if (ln.find(" " + g_repo + "/") == std::string::npos) continue;
     std::string fn = ln.substr(in + 4);
     size_t sp = fn.rfind(' '); if (loc && sp != std::string::npos) *loc = fn.substr(sp + 1);
@@ -606,6 +608,8 @@ static Crash classify(int status, const std::string &rep) {
     else if (m.find("division by zero") != std::string::npos) k = "division-by-zero";
     else if (m.find("pointer") != std::string::npos) k = "pointer-overflow";
     c.kind = "UBSan " + k; c.summary = m; c.site = top_frame(rep.substr(u), &c.loc);
+    { size_t ls = rep.rfind('\n', u); ls = ls == std::string::npos ? 0 : ls + 1;
+      if (rep.compare(ls, g_repo.size() + 1, g_repo + "/") != 0) c.site = "HARNESS " + rep.substr(ls, u - ls); }
     if (c.site == "?") {   // no stack: take file:line from the report line
       size_t ls = rep.rfind('\n', u); std::string pre = rep.substr(ls == std::string::npos ? 0 : ls + 1, u - (ls == std::string::npos ? 0 : ls + 1));
       c.loc = pre;
@@ -660,7 +664,15 @@ static ChildRun run_child(long long start_idx, int start_cfg, bool single) {
     const std::string &t = f[0];
     if (t == "P" && f.size() >= 3) { cr.last_idx = atoll(f[1].c_str()); cr.last_cfg = atoi(f[2].c_str()); cr.in_flight = true; }
     else if (t == "I" && f.size() >= 5) { cr.last_idx = atoll(f[1].c_str()); cr.last_cfg = -1; cr.in_flight = true; cr.desc = f[2]; cr.replay = f[3]; cr.ladder = f[4]; cr.key = f.size() > 5 ? f[5] : "-"; }
-    else if (t == "D") { cr.in_flight = false; if (!single) R.stats["inputs"]++; }
+    else if (t == "D") {
+      cr.in_flight = false;
+      if (!single && f.size() >= 8) {
+        R.stats["inputs"]++;
+        R.stats["reads"] += atoll(f[2].c_str()); R.stats["reads_complete"] += atoll(f[3].c_str());
+        R.stats["reads_error"] += atoll(f[4].c_str()); R.stats["reads_refused"] += atoll(f[5].c_str());
+        R.stats["reads_with_nested_begin_end"] += atoll(f[6].c_str()); R.stats["allocation_refusals_bad_alloc"] += atoll(f[7].c_str());
+      }
+    }
     else if (t == "V" && f.size() >= 4) R.violation(f[1], f[2], f[3]);
     else if (t == "C" && f.size() >= 2) R.classes.insert(f[1]);
     else if (t == "F" && f.size() >= 2) g_feats.insert(f[1]);
@@ -669,11 +681,6 @@ static ChildRun run_child(long long start_idx, int start_cfg, bool single) {
     else if (t == "B" && f.size() >= 2) R.broken(f[1]);
     else if (t == "N" && f.size() >= 2) cr.next = atoll(f[1].c_str());
     else if (t == "E" && f.size() >= 3) { cr.ended = true; cr.total = atoll(f[1].c_str()); cr.pruned = atoll(f[2].c_str()); }
-    else if (t == "S" && f.size() >= 8 && !single) {
-      R.stats["reads"] += atoll(f[1].c_str()); R.stats["reads_complete"] += atoll(f[2].c_str());
-      R.stats["reads_error"] += atoll(f[3].c_str()); R.stats["reads_refused"] += atoll(f[4].c_str());
-      R.stats["reads_with_nested_begin_end"] += atoll(f[5].c_str()); R.stats["allocation_refusals_bad_alloc"] += atoll(f[7].c_str());
-    }
   }
   free(line); fclose(in);
   int status = 0; while (waitpid(pid, &status, 0) < 0 && errno == EINTR) {}
@@ -739,6 +746,10 @@ static void run_all() {
       c2 = classify(again.status, rep2);
       if (c2.resource) { R.stats["asan_allocation_refusals"]++; start = idx; cfg = c + 1; continue; }
       if (!key.empty()) g_confirmed[key] = c2;
+    }
+    if (c2.site.compare(0, 7, "HARNESS") == 0 && !c2.stack) {
+      R.broken("sanitizer report inside the harness/oracle: " + c2.kind + " " + c2.site + " on " + cr.desc);
+      start = idx + 1; cfg = 0; continue;
     }
     R.stats["crashing_inputs"]++;
     std::string detail = "{\"input\":" + jstr(cr.desc) + ",\"cfg\":" + jstr(cn) + ",\"kind\":" + jstr(c2.kind) + ",\"site\":" + jstr(c2.site) +
